@@ -42,6 +42,8 @@ func truncatingOpen(c ssa.CallInstruction) (path ssa.Value, ok bool) {
 func runC18(p *core.Prog, r *core.Report) {
 	r.Rule("C18-R1", "MoveFile removes the source only on the edge where the copy returned nil, removes exactly the path it copied from, and performs no fallible step after the removal", 3)
 	r.Rule("C18-R2", "CopyFile: every truncating open of the destination is reachable only after os.SameFile(stat(source), os.Stat(destination)) returned false or the destination did not exist; the destination is inspected with os.Stat (follows links, like the open does)", 1)
+	r.Rule("C18-R4", "the file the copy writes into starts empty: os.Create / OpenFile with O_TRUNC / a fresh temporary file", 1)
+	r.Rule("C18-R5", "nothing removes or truncates the destination path where the same-file guard has not yet excluded that it is the source (including deferred clean-up)", 1)
 	r.Rule("C18-R3", "CopyFile returns the result of the copy step; an open error returns before any write", 2)
 	r.NotDecided = append(r.NotDecided, "byte equality after the call; EXDEV behaviour of rename; short writes inside io.Copy; the dropped Close error of the destination (informational)")
 	r.Trusted = append(r.Trusted, "os.SameFile compares device and inode", "os.Stat and os.Create both follow symbolic links", "io.Copy returns the first error", "go/ssa")
@@ -224,6 +226,112 @@ func runC18(p *core.Prog, r *core.Report) {
 			detail = "no os.SameFile test on stat(source) and os.Stat(destination) guards " + sx.CalleeName(op) + "(destination): " + detail
 		}
 		r.Check(ok, "C18-R2", c+" is guarded against aliasing", p.Pos(op.Pos()), "reachable only when SameFile is false or the destination does not exist", detail)
+	}
+
+	// ---- R4: the file the copy writes into is empty (truncated or new)
+	{
+		n := 0
+		sx.Instrs(cp, func(in ssa.Instruction) {
+			c, ok := in.(*ssa.Call)
+			if !ok {
+				return
+			}
+			name := sx.CalleeName(c)
+			if name != "os.OpenFile" && name != "os.Create" && name != "os.CreateTemp" {
+				return
+			}
+			if name == "os.OpenFile" && !sx.Origins(c.Call.Args[0])["param:"+cp.Params[1].Name()] {
+				return
+			}
+			if name == "os.Create" && !sx.Origins(c.Call.Args[0])["param:"+cp.Params[1].Name()] {
+				return
+			}
+			n++
+			okT := true
+			why := name + " yields an empty file"
+			if name == "os.OpenFile" {
+				fl, isC := sx.ConstInt(c.Call.Args[1])
+				const oTRUNC, oWR, oRDWR, oAPPEND = 0x200, 0x1, 0x2, 0x400
+				if !isC {
+					okT, why = false, "open flags are not constant"
+				} else if fl&(oWR|oRDWR) != 0 && fl&oTRUNC == 0 {
+					okT, why = false, "the destination is opened for writing without O_TRUNC: when it already exists and is longer than the source, the old tail survives and the destination does not hold exactly the source's bytes"
+				} else if fl&oAPPEND != 0 {
+					okT, why = false, "the destination is opened with O_APPEND"
+				}
+			}
+			r.Check(okT, "C18-R4", fmt.Sprintf("CopyFile: destination open #%d starts from an empty file", n), p.Pos(in.Pos()), why, why)
+		})
+	}
+	// ---- R5: nothing destroys the destination path on the refusal path (it may be the source)
+	{
+		guardCut := sx.Cut{Edges: map[sx.Edge]bool{}}
+		sx.Instrs(cp, func(in ssa.Instruction) {
+			sf, ok := in.(*ssa.Call)
+			if !ok || sx.CalleeName(sf) != "os.SameFile" {
+				return
+			}
+			for _, u := range *sf.Referrers() {
+				if iff, ok := u.(*ssa.If); ok {
+					guardCut.Edges[sx.Edge{From: iff.Block(), Idx: 1}] = true
+				}
+			}
+			for _, a := range sf.Call.Args {
+				for _, lf := range leaves(a) {
+					if e, ok := lf.(*ssa.Extract); ok {
+						if st, ok := e.Tuple.(*ssa.Call); ok && sx.CalleeName(st) == "os.Stat" && fromParam(st.Call.Args[0], cp, 1) {
+							for _, u := range *st.Referrers() {
+								if ee, ok := u.(*ssa.Extract); ok && ee.Index == 1 {
+									_, nonNil := sx.NilEdges(ee)
+									for k := range nonNil {
+										guardCut.Edges[k] = true
+									}
+								}
+							}
+						}
+					}
+				}
+			}
+		})
+		n := 0
+		removesDest := func(fn *ssa.Function) []ssa.Instruction {
+			var out []ssa.Instruction
+			sx.Instrs(fn, func(in ssa.Instruction) {
+				c, ok := in.(ssa.CallInstruction)
+				if !ok {
+					return
+				}
+				switch sx.CalleeName(c) {
+				case "os.Remove", "os.RemoveAll", "os.Truncate":
+					org := sx.Origins(c.Common().Args[0])
+					if org["param:"+cp.Params[1].Name()] || org["freevar:"+cp.Params[1].Name()] {
+						out = append(out, in)
+					}
+				}
+			})
+			return out
+		}
+		for _, in := range removesDest(cp) {
+			n++
+			ok := len(guardCut.Edges) > 0 && sx.MustPass(cp, nil, in, guardCut)
+			r.Check(ok, "C18-R5", fmt.Sprintf("CopyFile: removal of the destination path #%d only after the alias guard", n), p.Pos(in.Pos()), "behind the guard", "the destination path is removed on a path where it may be the source itself")
+		}
+		sx.Instrs(cp, func(in ssa.Instruction) {
+			d, ok := in.(*ssa.Defer)
+			if !ok {
+				return
+			}
+			callee := sx.StaticCallee(d)
+			if callee == nil || len(removesDest(callee)) == 0 {
+				return
+			}
+			n++
+			ok2 := len(guardCut.Edges) > 0 && sx.MustPass(cp, nil, in, guardCut)
+			r.Check(ok2, "C18-R5", fmt.Sprintf("CopyFile: deferred clean-up #%d of the destination path is registered after the alias guard", n), p.Pos(in.Pos()), "registered behind the guard", "a deferred clean-up that removes the destination path is registered before the same-file guard: when the guard refuses (destination is the source under another spelling) the clean-up deletes the source")
+		})
+		if n == 0 {
+			r.OK("C18-R5", "CopyFile never removes or truncates the destination path outside the open", p.FuncPos(cp), "no os.Remove/RemoveAll/Truncate of the destination")
+		}
 	}
 
 	// ---- R3
